@@ -75,6 +75,30 @@ def run_writer(path, hist, records):
         return stage, e
 
 
+def abandoned_image(hist, records, k):
+    """The writer writes k records and is then dropped without close() (an exception unwinding past it,
+    the program ending): the file content once the object has been garbage collected."""
+    import gc
+    import gaddlemaps.parsers as P
+    from gaddlemaps.parsers import GroFile
+    store = seams.FileStore()
+    with seams.patched(P, 'open', store.open):
+        g = GroFile('mem.gro', 'w')
+        try:
+            g.comment = 'crash images'
+            g.box_matrix = BOXES[hist['box']]
+            dec = declared_count(hist['n'], hist['count'])
+            if dec is not None:
+                g.natoms = dec
+            for r in records[:k]:
+                g.writeline(r)
+        except Exception:
+            pass
+        del g
+        gc.collect()
+    return store.data.get('mem.gro', '')
+
+
 def apply_write(data, pos, text):
     if pos > len(data):
         data = data + '\0' * (pos - len(data))
@@ -164,10 +188,12 @@ class C14(Check):
             'declared right/too large/too small/not declared, box, name class); distinct by descriptor; '
             'non-trivial = the image is neither empty nor the complete file')
     technique = ('crash-point enumeration: real writer over a recording open(), every prefix of the operation log and '
-                 'every byte prefix of each appending write, plus every byte truncation of complete generated and '
+                 'every byte prefix of each appending write, the writer object abandoned (dropped and garbage collected '
+                 'without close) after every number of records, plus every byte truncation of complete generated and '
                  'shipped files, each image read by the real reader')
     level_text = ('every crash point of the writer at operation granularity (and byte granularity inside appending writes) '
-                  'for every history of the stated product, and every byte-level truncation of every complete generated '
+                  'for every history of the stated product, the file left by a writer abandoned without close() after every number '
+                  'of records, and every byte-level truncation of every complete generated '
                   'file and of the 14 non-empty shipped files, are executed on the real reader; a statement about that '
                   'finite set of histories and files')
     level_note = ('trusted: the in-memory file seam (its final content is compared with a real file written by the same '
@@ -313,6 +339,12 @@ class C14(Check):
                         rv = read_real_file(path, image)
                     if rv[0] != verdict:
                         R.violation('harness/memfile-verdict-differs-from-real-file', desc, (rv, verdict))
+            if n <= 12:
+                for k in range(n + 1):
+                    image = abandoned_image(case, records, k)
+                    if not (complete and image == final):
+                        self._judge(R, dict(case, img=['abandon', k, None]), image, complete, final, expected,
+                                    box_offset, 'abandoned-writer/', 'abandoned/' + cls)
             if complete:
                 for k in range(len(final) + 1):
                     self._judge(R, dict(case, img=['trunc', k, None]), final[:k], True, final, expected,
@@ -323,7 +355,10 @@ class C14(Check):
             self._over_existing(case, R, ops, final, expected, box_offset, cls, only_i=only[1])
         else:
             kind, i, t = only
-            if kind == 'trunc':
+            if kind == 'abandon':
+                self._judge(R, case, abandoned_image(case, records, i), complete, final, expected, box_offset,
+                            'abandoned-writer/', 'abandoned/' + cls)
+            elif kind == 'trunc':
                 self._judge(R, case, final[:i], complete, final, expected, box_offset,
                             'truncation/generated/', 'trunc/' + cls)
             else:
